@@ -145,22 +145,8 @@ def run_literal(desc):
         model = T.Model(root)
         entries = [p for p, _d, _l in model.all_entries(follow=False, max_depth=6)]
         seen = set()
-        for p in entries:
-            parts = p.split('/')
-            variants = [tuple(A.lits(x) for x in parts)]
-            for i in range(len(parts)):
-                sw = list(parts)
-                sw[i] = sw[i].swapcase()
-                variants.append(tuple(A.lits(x) for x in sw))
-                st_ = [A.lits(x) for x in parts]
-                st_[i] = (A.STAR,)
-                variants.append(tuple(st_))
-                gs = [A.lits(x) for x in parts]
-                gs[i] = A.GS
-                variants.append(tuple(gs))
-                q = [A.lits(x) for x in parts]
-                q[i] = (A.lit(parts[i][0]), A.STAR) if parts[i][0] not in '.' else (A.lit('.'), A.STAR)
-                variants.append(tuple(q))
+        if True:
+            variants = list(FC.literal_variants(entries))
             for segs in variants:
                 for cfg in ({}, {'icase': True}, {'icase': True, 'globstar': True}, {'globstar': True, 'dot': True}, {'icase': True, 'mark': True}):
                     for trail in (False, True) if len(segs) <= 2 else (False,):
